@@ -3931,6 +3931,11 @@ class OpAlignPartitions(MaybeAlignPartitions):
 class MethodOperatorAlign(OpAlignPartitions):
     _parameters = ["frame", "other", "op", "axis", "level", "fill_value"]
 
+    @functools.cached_property
+    def _meta(self):
+        # axis, level and fill_value decide on labels and dtypes
+        return self._op(self.frame, self.op, self.other, *self.operands[3:])._meta
+
     @staticmethod
     def _op(frame, op, other, *args, **kwargs):
         return MethodOperator(op, frame, other, *args, **kwargs)
